@@ -129,6 +129,50 @@ func (g *c08Gen) stmt() *sx.N {
 			return g.probe("call", g.guarded(sx.Call(target)))
 		}
 		return g.probe("call", g.guarded(sx.Call(target, val)))
+	case k == 21:
+		// a function that reaches its callee INDIRECTLY: funcall / apply of a quoted
+		// symbol, which is resolved when the call is made, in the package that is
+		// current then - the function's defining package.  In tail position (where
+		// chains of such calls through several packages are collapsed by tail-call
+		// elimination) or not; the callee may be `set`, which binds in the current package.
+		add("indirect-call")
+		other := fw.Pick(g.r, c08Names)
+		via := fw.Pick(g.r, []string{"funcall", "apply"})
+		mk := func(target string, args ...*sx.N) *sx.N {
+			if via == "apply" {
+				return sx.Call("apply", sx.QY(target), sx.Call("list", args...))
+			}
+			return sx.Call("funcall", append([]*sx.N{sx.QY(target)}, args...)...)
+		}
+		pos := func(e *sx.N) *sx.N {
+			if g.r.Chance(2, 3) {
+				return e // tail position
+			}
+			return sx.Call("list", e)
+		}
+		rest := sx.L(sx.Y("&rest"), sx.Y("xs"))
+		switch g.r.Intn(5) {
+		case 0:
+			return sx.Call("defun", sx.Y(name), rest, pos(mk(other)))
+		case 1:
+			return sx.Call("defun", sx.Y(name), rest, pos(mk(g.pkgRef()+":"+other)))
+		case 2:
+			return sx.Call("defun", sx.Y(name), sx.L(sx.Y("v")), pos(mk("set", sx.QY(other), sx.Y("v"))))
+		default:
+			// a chain through another package, built in one statement
+			p2 := g.pkgRef()
+			third := fw.Pick(g.r, c08Names)
+			inner := mk(third)
+			if g.r.Chance(1, 3) {
+				inner = mk("set", sx.QY(third), sx.I(int64(700+g.r.Intn(9))))
+			}
+			return sx.Call("progn",
+				sx.Call("in-package", sx.QY(p2)),
+				sx.Call("defun", sx.Y(other), rest, pos(inner)),
+				sx.Call("in-package", sx.QY(g.cur)),
+				sx.Call("defun", sx.Y(name), rest, pos(mk(p2+":"+other))),
+				g.probe("call", g.guarded(sx.Call(name))))
+		}
 	case k == 22:
 		// a function that FAILS when called, in a non-final or in its final body form;
 		// calls are guarded, so evaluation continues in the caller's package
